@@ -11,6 +11,17 @@
 
 using namespace vh;
 
+// The wall clock of the process is virtual: time() is defined here (the executable's definition is found
+// first by the dynamic linker, so librime.so's calls to time() resolve to it as well) and advances only
+// through the script op `advance <seconds>` - session staleness becomes deterministic and testable.
+static time_t g_fake_now = 1790000000;
+static bool g_time_called = false;
+extern "C" time_t time(time_t* t) {
+  g_time_called = true;
+  if (t) *t = g_fake_now;
+  return g_fake_now;
+}
+
 int main(int argc, char** argv) {
   if (argc < 5) {
     fprintf(stderr, "usage: c16 <shared> <user> <staging> <script>\n");
@@ -42,6 +53,18 @@ int main(int argc, char** argv) {
     std::string op;
     ls >> lg >> op;
     std::ostringstream obs;
+    if (op == "advance") {
+      long d;
+      ls >> d;
+      g_fake_now += d;
+      std::cout << lineno << "|" << lg << "|" << op << "|-|0|unit\n";
+      continue;
+    }
+    if (op == "cleanup_stale") {
+      api->cleanup_stale_sessions();
+      std::cout << lineno << "|" << lg << "|" << op << "|-|0|unit\n";
+      continue;
+    }
     if (op == "cleanup_all") {
       api->cleanup_all_sessions();
       for (auto& c : created) c.second = false;
@@ -92,6 +115,6 @@ int main(int argc, char** argv) {
   std::cout.flush();
   api->cleanup_all_sessions();
   env.stop();
-  std::cout << "DONE" << std::endl;
+  std::cout << (g_time_called ? "DONE" : "DONE-BUT-time()-NOT-INTERPOSED") << std::endl;
   return 0;
 }
